@@ -44,6 +44,15 @@ BUILT = {
    'TLC asserts the interpolation law (literal segments interleaved with formatted values; missing reference or unset variable is an error; $env always a string, also in keys; nested templates) on 653 template cases, each replayed on the library with a controlled environment. The driver builds templates of 0-4 literal segments and 0-4 references with look-alike environment values; the expected string is assembled independently and TLC checks specification = code = expectation.',
    'Trusts TLC and tv. Environment values containing $ forms are a listed known finding (c13-env-dollar).',
    'TLA+ spec + TLC bounded universe (MC_Eval C13) with replay + trace validation with hand-assembled expectations', '6 C13'),
+
+ 'C03': ('model_checking',
+   'TLC evaluates the resolver machine (BklFiles: $parent directive, then symlink, then filename; depth-first, parents before child, no de-duplication) composed with the Parser machine on every layout of the bounded model MC_Files (filename chains of depth 1-4 under every rotation of 5 extensions, virtual inputs, every missing layer, the same chains written with $parent, 15 $parent forms, $parent in a second document, symlinks, several inputs with and without -P, diamonds), asserts BaseFirst / ParentEqFilename / MissingIsError / SkipParents on the order lists, and each layout is materialised in a fresh directory and run through the real bkl binary. Random layouts (two chains, depth <= 4, mixed extensions, all $parent forms, two-document files, symlinked and virtual inputs, -P) are run through the real binary and validated by TLC against RunLayers.',
+   'Trusts TLC, the tv projection and the harness file emitters (encoding/json, yaml.v3, go-toml used as writers). Layouts where two files provide one layer name are excluded, as the property states. A symlink keeps its target\'s extension (the format is taken from the name).',
+   'TLA+ resolver+Parser machines (BklFiles) + TLC bounded layout model with replay on the real binary + TLC trace validation of recorded runs', '6 C03'),
+ 'C18': ('model_checking',
+   'TLC evaluates the resolver with a root ([lexical, real] pair, os.Root rules: no escape through .., absolute links or links leaving the root) on the MC_Files C18 layouts and asserts Confined (every content read inside the root), EscapesFail and NonInterference (the run on the file system with everything outside the root removed gives the same result); each layout is run through the real binary under strace -f -y (content reads of any path outside the root are violations) and twice more with the outside files rewritten / deleted. Random layouts (11 $parent values, 9 link targets, 6 directory links, 10 inputs, 4 root spellings) are run the same way and validated by TLC, including the set of files read; library runs exercise nested SetRoot calls, also through directory links.',
+   'Trusts strace to show every content read (read/pread/readv/mmap with resolved paths). Existence probes (stat, glob) outside the root are not content reads. go1.24.0 os.Root panics on OpenRoot("..") (stdlib defect, recovered by the harness and counted as a failed call).',
+   'TLA+ resolver machine with root confinement + TLC bounded model with replay under strace + non-interference reruns + TLC trace validation', '6 C18'),
 }
 PENDING = 'check not built yet (work in progress; DESIGN.md section 6 describes the planned decision procedure)'
 
